@@ -54,7 +54,7 @@ class Printer:
         if v is None:
             return 'NULL'
         if isinstance(v, bool):
-            return '1' if v else '0'
+            return 'TRUE' if v else 'FALSE'      # not 1 / 0: `x IS TRUE` is a truth test, `x IS 1` a comparison
         if isinstance(v, (int, float)):
             return repr(v) if v >= 0 else '(' + repr(v) + ')'
         if isinstance(v, (datetime.date, datetime.datetime)):
